@@ -281,3 +281,132 @@ def mentions(node) -> set[str]:
         elif isinstance(n, ast.Constant) and isinstance(n.value, str):
             out.add(n.value)
     return out
+
+
+# ---------------------------------------------------------------------------
+# canonical text: insensitive to introduced locals and to the names of loop variables
+
+
+class _Renamer(ast.NodeTransformer):
+    def __init__(self, mapping):
+        self.mapping = mapping
+
+    def visit_Name(self, node):
+        if node.id in self.mapping:
+            return ast.copy_location(copy.deepcopy(self.mapping[node.id]), node) if not isinstance(self.mapping[node.id], str) else ast.copy_location(
+                ast.Name(id=self.mapping[node.id], ctx=node.ctx), node
+            )
+        return node
+
+
+def _bound_names(target):
+    return [n.id for n in ast.walk(target) if isinstance(n, ast.Name)]
+
+
+def canon(func):
+    """deep copy of a function (or any node) in canonical form:
+    (1) a local name that is assigned exactly once by a plain `x = <expr>` statement, never reassigned, not a
+        parameter and not used as a call target of a mutation, is replaced by its defining expression (so
+        `tmp = a.b; use(tmp)` reads `use(a.b)`); the defining statement is dropped;
+    (2) loop variables of comprehensions are renamed `$0, $1, ..` by position, those of `for` statements `$f0, ..`.
+    Used only for *recognising* constructs; verdicts are still about the original source."""
+    node = copy.deepcopy(func)
+    # docstrings carry no behaviour
+    for n in ast.walk(node):
+        body = getattr(n, "body", None)
+        if isinstance(body, list) and body and isinstance(body[0], ast.Expr) and isinstance(body[0].value, ast.Constant) and isinstance(body[0].value.value, str):
+            if len(body) > 1:
+                n.body = body[1:]
+    params = set()
+    if isinstance(node, (ast.FunctionDef, ast.AsyncFunctionDef)):
+        a = node.args
+        params = {x.arg for x in a.posonlyargs + a.args + a.kwonlyargs} | ({a.vararg.arg} if a.vararg else set()) | ({a.kwarg.arg} if a.kwarg else set())
+    # --- (1) inline single-assignment locals, repeatedly (chains)
+    for _ in range(4):
+        counts: dict[str, int] = {}
+        defs: dict[str, ast.Assign] = {}
+        for n in ast.walk(node):
+            if isinstance(n, ast.Assign):
+                for t in n.targets:
+                    for nm in _bound_names(t) if isinstance(t, (ast.Tuple, ast.List, ast.Name)) else []:
+                        counts[nm] = counts.get(nm, 0) + 1
+                if len(n.targets) == 1 and isinstance(n.targets[0], ast.Name):
+                    defs[n.targets[0].id] = n
+            elif isinstance(n, (ast.AugAssign, ast.AnnAssign)):
+                for nm in _bound_names(n.target):
+                    counts[nm] = counts.get(nm, 0) + 2
+            elif isinstance(n, (ast.For, ast.comprehension)):
+                for nm in _bound_names(n.target):
+                    counts[nm] = counts.get(nm, 0) + 2
+            elif isinstance(n, ast.NamedExpr):
+                for nm in _bound_names(n.target):
+                    counts[nm] = counts.get(nm, 0) + 2
+            elif isinstance(n, (ast.With,)):
+                for it in n.items:
+                    if it.optional_vars is not None:
+                        for nm in _bound_names(it.optional_vars):
+                            counts[nm] = counts.get(nm, 0) + 2
+            elif isinstance(n, ast.ExceptHandler) and n.name:
+                counts[n.name] = counts.get(n.name, 0) + 2
+        inl = {}
+        for nm, st in defs.items():
+            if counts.get(nm) != 1 or nm in params:
+                continue
+            # do not inline values whose identity matters (fresh containers that are mutated later) or big displays
+            v = st.value
+            mutated = any(
+                isinstance(c, ast.Call) and isinstance(c.func, ast.Attribute) and isinstance(c.func.value, ast.Name) and c.func.value.id == nm
+                and c.func.attr in ("append", "extend", "update", "add", "clear", "pop", "insert", "remove")
+                for c in ast.walk(node)
+            ) or any(
+                isinstance(s, (ast.Assign, ast.AugAssign)) and any(
+                    isinstance(t, (ast.Attribute, ast.Subscript)) and isinstance(t.value, ast.Name) and t.value.id == nm
+                    for t in (s.targets if isinstance(s, ast.Assign) else [s.target])
+                )
+                for s in ast.walk(node)
+            )
+            if mutated or isinstance(v, (ast.Lambda, ast.Yield, ast.YieldFrom, ast.Await)):
+                continue
+            # the definition must not mention itself
+            if nm in {x.id for x in ast.walk(v) if isinstance(x, ast.Name)}:
+                continue
+            inl[nm] = v
+        if not inl:
+            break
+        # drop the defining statements and substitute
+        class _Drop(ast.NodeTransformer):
+            def visit_Assign(self, n):
+                if len(n.targets) == 1 and isinstance(n.targets[0], ast.Name) and n.targets[0].id in inl and n is defs.get(n.targets[0].id):
+                    return None
+                return self.generic_visit(n)
+
+        node = _Drop().visit(node)
+        node = _Renamer(inl).visit(node)
+        ast.fix_missing_locations(node)
+    # --- (2) canonical loop variable names
+    counter = [0]
+
+    def rename_comp(n):
+        for child in ast.iter_child_nodes(n):
+            rename_comp(child)
+        if isinstance(n, (ast.ListComp, ast.SetComp, ast.GeneratorExp, ast.DictComp)):
+            mapping = {}
+            for g in n.generators:
+                for nm in _bound_names(g.target):
+                    if nm not in mapping:
+                        mapping[nm] = f"${len(mapping)}"
+            r = _Renamer(mapping)
+            for field in ("elt", "key", "value"):
+                if hasattr(n, field):
+                    setattr(n, field, r.visit(getattr(n, field)))
+            for g in n.generators:
+                g.target = r.visit(g.target)
+                g.iter = r.visit(g.iter)
+                g.ifs = [r.visit(c) for c in g.ifs]
+
+    rename_comp(node)
+    return node
+
+
+def ctext(func) -> str:
+    return norm(canon(func))
